@@ -185,3 +185,44 @@ def subdomains_kept_when_asked(u):
     if isinstance(b, str):
         return True
     return b.hostname == pin[3].lower()
+
+
+_AMP_KEY = re.compile(r"^amp(?:_.+)?$", re.I)
+
+
+def amp_items_kept_when_asked(u):
+    """normalize_amp=False keeps the AMP query items, also after a call with normalize_amp=True"""
+    b0 = _parts(u, sort_query=False, fix_common_mistakes=False)
+    if b0 is None:
+        return True
+    b = _parts(u, normalize_amp=False, sort_query=False, fix_common_mistakes=False)
+    if b is None:
+        return True
+    qin = U.query_items(b[0][0].query)
+    qout = U.query_items(b[1].query)
+    for k, v in qin:
+        try:
+            key = k.decode("utf-8")
+        except UnicodeDecodeError:
+            continue
+        if _AMP_KEY.match(key) and (k, v) not in qout:
+            return False
+    return True
+
+
+_MISTAKE = re.compile(r"&amp(?:%3B|;)", re.I)
+
+
+def query_items_are_a_subset_with_repair(u):
+    """fix_common_mistakes=True: the output items are a subset of the input's items once '&amp;' is read as '&'"""
+    b = _parts(u, fix_common_mistakes=True)
+    if b is None:
+        return True
+    qin = U.query_items(_MISTAKE.sub("&", b[0][0].query))
+    qout = U.query_items(b[1].query)
+    pool = list(qin)
+    for it in qout:
+        if it not in pool:
+            return False
+        pool.remove(it)
+    return True
